@@ -194,7 +194,9 @@ func famStartCancel(w *World, c *Case, rng *rand.Rand) {
 	w.SigExtra = fmt.Sprintf("%s/%s/%d", shape, how, hit)
 	parks := make([]time.Duration, hit+1)
 	parks[hit] = time.Millisecond
-	w.installYield(&YieldPlan{Parks: map[string][]time.Duration{"carrier.send.beforeLock": parks}})
+	// (client-side sends only: a parked server-side send would hold the stream's write lock, which
+	// the server's receive loop takes when the cancel frame arrives)
+	w.installYield(&YieldPlan{Parks: map[string][]time.Duration{"carrier.send.beforeLock": parks}, ParkIf: clientSideCaller})
 	s := &RPCSpec{ID: "sc", Method: shape}
 	switch shape {
 	case "Unary":
